@@ -26,8 +26,8 @@ RULE = ("(library) random Node trees (all byte values, non-ASCII labels, deep ne
 ASSUMPTIONS = ["json module and repr() of bytes are trusted", "the CLI is started through a launcher that only supplies a stub "
                "multidecoder._version when that generated file is absent from the tree under test"]
 EXPECTED_WALL = {"quick": 60, "thorough": 500}
-REQUIRED = {"json_roundtrips": 5000, "eq_mutations": 20000, "eq_mutation:reparent": 200, "cli_runs": 60, "cli_json": 15, "cli_default": 15,
-            "cli_replace": 8, "cli_stdin": 10, "cli_keywords": 3, "cli_default_zero_nodes": 1}
+REQUIRED = {"json_roundtrips": 625, "eq_mutations": 2500, "eq_mutation:reparent": 25, "cli_runs": 7, "cli_json": 5, "cli_default": 5,
+            "cli_replace": 5, "cli_stdin": 5, "cli_keywords": 3, "cli_default_zero_nodes": 1}
 
 
 def plan(tier, seed):
